@@ -52,3 +52,16 @@ def attr_stores(f: Func, base: str | None = None) -> dict[str, list[str]]:
 
 def dict_of(node: ast.Dict, c: Canon) -> dict[str, str]:
     return {k.value: c.text(v) for k, v in zip(node.keys, node.values) if isinstance(k, ast.Constant)}
+
+
+def rtext(e: ast.AST | None, roles: dict[str, str]) -> str:
+    """Source text with the local names in `roles` replaced by their role label."""
+    import copy
+
+    if e is None:
+        return ""
+    e2 = copy.deepcopy(e)
+    for x in ast.walk(e2):
+        if isinstance(x, ast.Name) and x.id in roles:
+            x.id = roles[x.id]
+    return " ".join(ast.unparse(e2).split())
